@@ -11,7 +11,7 @@
  "name": "inline_data_get",
  "props": ["C06"],
  "level": "U",
- "tier": "wip",
+ "tier": "quick",
  "harness": "h_inl_get",
  "defines": ["EXT2_CUSTOM_MEMORY_ROUTINES", "INL_CAP=66000"],
  "unwind": 14,
@@ -27,7 +27,7 @@
  "name": "inline_data_size",
  "props": ["C06"],
  "level": "U",
- "tier": "wip",
+ "tier": "quick",
  "harness": "h_inl_size",
  "defines": ["EXT2_CUSTOM_MEMORY_ROUTINES"],
  "unwind": 14,
@@ -42,7 +42,7 @@
  "name": "inline_data_set",
  "props": ["C06"],
  "level": "U",
- "tier": "wip",
+ "tier": "quick",
  "harness": "h_inl_set",
  "defines": ["EXT2_CUSTOM_MEMORY_ROUTINES"],
  "unwind": 14,
@@ -58,7 +58,7 @@
  "name": "inline_data_dir_iterate",
  "props": ["C06"],
  "level": "U",
- "tier": "wip",
+ "tier": "quick",
  "harness": "h_inl_dir_iterate",
  "defines": ["EXT2_CUSTOM_MEMORY_ROUTINES"],
  "sources": ["lib/ext2fs/dir_iterate.c"],
@@ -76,7 +76,7 @@
  "name": "inline_data_expand_sizes",
  "props": ["C06"],
  "level": "U",
- "tier": "wip",
+ "tier": "quick",
  "harness": "h_inl_expand",
  "defines": ["EXT2_CUSTOM_MEMORY_ROUTINES", "INL_CAP=66000"],
  "replace": ["ext2fs_inline_data_dir_expand", "ext2fs_inline_data_file_expand"],
@@ -93,7 +93,7 @@
  "name": "inline_data_convert_dir",
  "props": ["C06"],
  "level": "U/iter",
- "tier": "wip",
+ "tier": "quick",
  "harness": "h_inl_convert_dir",
  "defines": ["EXT2_CUSTOM_MEMORY_ROUTINES", "INL_CAP=1100"],
  "sources": ["lib/ext2fs/dir_iterate.c"],
